@@ -23,6 +23,7 @@ locale_t verif_uselocale(locale_t);
 locale_t verif_duplocale(locale_t);
 locale_t verif_newlocale(int, const char *, locale_t);
 void verif_freelocale(locale_t);
+int vh_seed_candidate(void); /* C18: per-thread distinct seed candidate (OVERRIDE_GET_RANDOM_SEED) */
 
 #define malloc(n) verif_malloc((n), __func__)
 #define calloc(a, b) verif_calloc((a), (b), __func__)
